@@ -129,4 +129,64 @@ theorem ambiguous_window_production :
     rowCountAmbiguous genK genL genS true (10 * genL) = true ∧
     rowCountAmbiguous genK genL genS true (10 * genL + 1) = false := by decide
 
+
+/-! ### decoding the data shards gives back the data file
+
+FULL-STRENGTH statement (DESIGN §5 `ec_decode_exact`):
+  ∀ k L S D, decode k L S <decoder guard> (layout k L S <encoder guard> D) |D| = some D
+is FALSE for the operators the code uses (encoder `>`, decoder `>=`) when `|D|` is a positive
+multiple of `k·L` (finding WriteDatFile/large-row-guard-differs-from-encoder):
+see `ec_decode_exact_false_witness`. -/
+
+/-- with the same guard operator on both sides the round trip is exact for EVERY file -/
+theorem ec_decode_exact_same_guard (k L S : Nat) (strict : Bool) (D : List Nat)
+    (hk : 0 < k) (hL : 0 < L) (hS : 0 < S) :
+    decode k L S strict (layout k L S strict D) D.length = some D :=
+  decode_layout k L S strict strict D hk hL hS rfl
+
+/-- `>` and `>=` count the same number of large rows except at positive multiples of `k·L` -/
+theorem large_rows_agree (k L n : Nat) (hkL : 0 < k * L) (hx : ¬ (0 < n ∧ n % (k * L) = 0)) :
+    nLargeRows k L false n = nLargeRows k L true n := by
+  unfold nLargeRows
+  simp only [Bool.false_eq_true, if_false, if_true]
+  by_cases h0 : n = 0
+  · subst h0; simp
+  · have hm : 0 < n % (k * L) := by omega
+    have hlt := Nat.mod_lt n hkL
+    have hdm := Nat.div_add_mod n (k * L)
+    have hc : k * L * (n / (k * L)) = n / (k * L) * (k * L) := Nat.mul_comm _ _
+    have : n - 1 = n / (k * L) * (k * L) + (n % (k * L) - 1) := by omega
+    rw [this, (div_mod_block (k * L) (n / (k * L)) (n % (k * L) - 1) (by omega)).1]
+
+/-- the code's operators (encoder strict, decoder inclusive): exact for every file whose size is not a
+    positive multiple of `k·L` -/
+theorem ec_decode_exact_partial (k L S : Nat) (D : List Nat) (hk : 0 < k) (hL : 0 < L) (hS : 0 < S)
+    (hx : ¬ (0 < D.length ∧ D.length % (k * L) = 0)) :
+    decode k L S false (layout k L S true D) D.length = some D :=
+  decode_layout k L S true false D hk hL hS (large_rows_agree k L D.length (Nat.mul_pos hk hL) hx)
+
+example : ¬ (0 < (List.replicate 7 1).length ∧ (List.replicate 7 1).length % (2 * 4) = 0) := by decide
+
+/-- the excluded sizes really fail: `k = 2, L = 4, S = 1`, an 8-byte file -/
+theorem ec_decode_exact_false_witness :
+    decode 2 4 1 false (layout 2 4 1 true [1, 2, 3, 4, 5, 6, 7, 8]) 8 = some [1, 3, 5, 7, 2, 4, 6, 8] := by decide
+
+/-- production instance, parameterised by the operators read from the source: whatever the two
+    extracted operators are, decoding is exact when they coincide, and otherwise for every size that
+    is not a positive multiple of 10 GiB -/
+theorem ec_decode_exact_production (es ds : Bool) (he : genEncStrict = some es) (hd : genDecStrict = some ds)
+    (D : List Nat) (hx : es = ds ∨ ¬ (0 < D.length ∧ D.length % (genK * genL) = 0)) :
+    decode genK genL genS ds (layout genK genL genS es D) D.length = some D := by
+  have hk : 0 < genK := by decide
+  have hL : 0 < genL := by decide
+  have hS : 0 < genS := by decide
+  apply decode_layout genK genL genS es ds D hk hL hS
+  rcases hx with h | h
+  · rw [h]
+  · have := large_rows_agree genK genL D.length (Nat.mul_pos hk hL) h
+    cases es <;> cases ds <;> simp_all
+
+/-- the operators in the source today do differ, so the exclusion is not vacuous -/
+theorem guards_differ_today : genEncStrict = some true ∧ genDecStrict = some false := by decide
+
 end SwV.Props.C06
